@@ -84,7 +84,7 @@ func Walk(ns []*html.Node, fn func(n *html.Node)) {
 func HasAncestor(n *html.Node, names ...string) bool {
 	for p := n.Parent; p != nil; p = p.Parent {
 		if p.Type == html.ElementNode {
-			l := strings.ToLower(p.Data)
+			l := asciiLower(p.Data)
 			for _, x := range names {
 				if l == x {
 					return true
@@ -282,3 +282,7 @@ func Balance(toks []Tok) string {
 	}
 	return ""
 }
+
+// ASCIILower lower-cases ASCII letters only, as the HTML tokenizer does (Unicode
+// case folding would turn look-alikes such as "scrİpt" into "script").
+func ASCIILower(s string) string { return asciiLower(s) }
